@@ -115,7 +115,11 @@ class RealReduction:
         elif form == 'flatten':
             self.call = lambda t: flatten(t, spec=sub, init=self.init, levels=sp['levels'])
         elif form == 'merge':
-            self.call = lambda t: merge(t, spec=sub, init=self.init, op=op)
+            if sub is T and init == 'dict' and not counting:
+                # the convenience call with op= only (default spec and init)
+                self.call = (lambda t: merge(t, op=op)) if op is not None else (lambda t: merge(t))
+            else:
+                self.call = lambda t: merge(t, spec=sub, init=self.init, op=op)
         else:
             raise vlib.MachineryError('unknown form %r' % (form,))
         if self.spec is not None:
@@ -126,6 +130,39 @@ class RealReduction:
             self.counter.calls = 0
         res = self.call(target)
         return res
+
+
+# floats whose sums are not exact: the specification keeps a sum of them as a term (GlomReduce!IsFlt),
+# which is evaluated here with Python's own float addition, in the order the term says
+FLOATS = {'fB': 2.0 ** 53, 'f1': 1.0, 'fnB': -(2.0 ** 53), 'f01': 0.1}
+
+
+def pyval(v):
+    k = v['k']
+    if k == 'int':
+        return v['i']
+    if k == 'bool':
+        return v['b']
+    if k == 'frac':
+        return Fraction(v['n'], v['d'])
+    if k == 'dec':
+        return Decimal(v['i'])
+    if k == 'fn':
+        return FLOATS[v['s']]
+    if k == 'fsum':
+        return pyval(v['l']) + pyval(v['r'])
+    if k == 'fdig':
+        return pyval(v['l']) * 10 + pyval(v['r'])
+    raise vlib.MachineryError('not a number: %r' % (v,))
+
+
+def concrete(v):
+    """a predicted structural value with its float terms evaluated"""
+    if v.get('k') in ('fn', 'fsum', 'fdig'):
+        return deep(pyval(v))
+    if 'items' in v:
+        return dict(v, items=[[concrete(x) for x in it] if isinstance(it, list) else concrete(it) for it in v['items']])
+    return v
 
 
 # ---- structural projection -----------------------------------------------------------------
@@ -142,9 +179,9 @@ def deep(o, depth=0):
         return {'k': 'dec', 'i': int(o)} if o == int(o) and abs(o) < 2 ** 31 else {'k': 'opaque', 's': repr(o)}
     if isinstance(o, (float, Fraction)):
         fr = Fraction(o)
-        if fr.denominator in (1, 2):
+        if fr.denominator in (1, 2) and abs(fr.numerator) < 2 ** 31:
             return {'k': 'frac', 'n': fr.numerator, 'd': fr.denominator}
-        return {'k': 'opaque', 's': repr(o)}
+        return {'k': 'float', 'r': repr(o)}
     if isinstance(o, str):
         return {'k': 'str', 's': o}
     if isinstance(o, OrderedDict):
@@ -195,7 +232,8 @@ def run_case(heap0, root, wrap, sp, counting, third=False):
     -> (obs list, frame ok, independent ok, detail)"""
     classes = codec.FALSY_LOGGING if counting else codec.PLAIN
     del codec.ACCESS_LOG[:]
-    heap = codec.Heap(heap0, classes)
+    heap = codec.Heap(heap0, classes, FLOATS)
+    base = heap.snapshot()
     rr = RealReduction(sp, counting)
     rootobj = heap.val(root)
     input_ids = set(heap.ids)
@@ -206,7 +244,7 @@ def run_case(heap0, root, wrap, sp, counting, third=False):
         if e == 3:
             if not third or shared:
                 break
-            heap = codec.Heap(heap0, classes)       # an equal, different target
+            heap = codec.Heap(heap0, classes, FLOATS)       # an equal, different target
             rootobj = heap.val(root)
             input_ids |= set(heap.ids)
         target = iter(rootobj) if wrap == 'gen' else rootobj
@@ -231,7 +269,7 @@ def run_case(heap0, root, wrap, sp, counting, third=False):
             detail = 'flatten(levels=0) did not return the target itself'
         obs.append(o)
         results.append(res)
-        if heap.snapshot() != heap0:
+        if heap.snapshot() != base:
             frame = False
             detail = detail or 'input changed during evaluation %d' % e
         if o['ok'] and not shared and not (sp['form'] == 'flatten' and sp['levels'] == 0):
@@ -254,8 +292,8 @@ def compare(pred, obs, counting):
         if p['ok'] != o['ok'] or p['exc'] != o['exc']:
             return 'evaluation %d: predicted %s observed %s' % (
                 e + 1, 'ok' if p['ok'] else p['exc'], 'ok' if o['ok'] else o['exc'])
-        if p['ok'] and p['v'] != o['v']:
-            return 'evaluation %d: value predicted %s observed %s' % (e + 1, json.dumps(p['v']), json.dumps(o['v']))
+        if p['ok'] and concrete(p['v']) != o['v']:
+            return 'evaluation %d: value predicted %s observed %s' % (e + 1, json.dumps(concrete(p['v'])), json.dumps(o['v']))
         if counting and 0 <= o['inits'] < p['inits']:
             return 'evaluation %d: init() called %d time(s) during the evaluation, the law requires %d' % (e + 1, o['inits'], p['inits'])
     return None
@@ -463,12 +501,15 @@ UNIVERSES = {
     'quick': [
         ('all', consts(MaxLen=2, Outers=tla_set(['list', 'dict']))),
         ('generators', consts(MaxLen=2, Outers=tla_set(['gen']), Families=tla_set(['seqs', 'bad']))),
+        ('floats', consts(MaxLen=3, Outers=tla_set(['list']), Families=tla_set(['floats']), Forms=tla_set(['Sum', 'Fold']))),
         ('tuple+subspec', consts(MaxLen=1, Outers=tla_set(['tuple']), Subs=tla_set(['k', 'klist']),
                                  Families=tla_set(['nums', 'seqs', 'dicts', 'bad']))),
     ],
     'thorough': [
         ('all', consts(MaxLen=3, Families=tla_set(['nums', 'seqs', 'dicts', 'bad', 'keys']),
                        Outers=tla_set(['list', 'gen', 'dict']))),
+        ('floats', consts(MaxLen=3, Outers=tla_set(['list', 'gen']), Families=tla_set(['floats', 'nums']),
+                          Forms=tla_set(['Sum', 'Fold', 'Flatten']))),
         ('deep', consts(MaxLen=2, Families=tla_set(['deep']), Outers=tla_set(['list', 'tuple', 'gen']))),
         ('tuple+subspec', consts(MaxLen=2, Outers=tla_set(['tuple', 'list']), Subs=tla_set(['k', 'klist']))),
     ],
@@ -530,7 +571,8 @@ def main(tier, seed):
     record(check, {'quick': 5000, 'thorough': 120000}[tier], seed)
     check.extra['universes'] = {label: cs for label, cs in UNIVERSES[tier]}
     check.assumptions += [
-        'numbers are ints and exact multiples of 1/2 (float / Fraction); strings are "", "uv" and one-character strings',
+        'numbers are ints, bools, Decimal and exact multiples of 1/2 (float / Fraction), plus four binary floats with inexact sums '
+        'whose additions are evaluated by Python itself in the order the specification fixes; strings are "", "uv" and one-character strings',
         'Count() outside Group mode and decimal.Decimal as init are included; ops: operator.iadd, operator.add, lambda a, b: a * 10 + b, lambda a, b: b; Merge ops: default "update", '
         '"extend" (by name, on a list), a first-writer-wins callable; custom inits (non-empty starts): lambda: 5, lambda: [0], '
         "lambda: 'x', lambda: (0,), lambda: Fraction(1, 2)",
